@@ -103,12 +103,14 @@ pub struct RCfg {
     pub join_budget: u8,
     /// value of the station's clock at the start (microseconds)
     pub origin_us: i64,
+    /// index into w2::BAUDS
+    pub baud: u8,
 }
 
 impl RCfg {
     pub fn to_json(&self) -> Value {
         json!({"ts": self.ts, "hsa": self.hsa, "gap_factor": self.gap_factor, "slot_bits": self.slot_bits, "ttr": self.ttr, "period_div": self.period_div, "members0": self.members0,
-            "scripts": self.scripts.iter().map(|s| s.iter().map(|x| format!("{:?}", x)).collect::<Vec<_>>()).collect::<Vec<_>>(), "multi": self.multi, "mon": format!("{:?}", self.mon), "max_visits": self.max_visits, "join_budget": self.join_budget, "origin_us": self.origin_us})
+            "scripts": self.scripts.iter().map(|s| s.iter().map(|x| format!("{:?}", x)).collect::<Vec<_>>()).collect::<Vec<_>>(), "multi": self.multi, "mon": format!("{:?}", self.mon), "max_visits": self.max_visits, "join_budget": self.join_budget, "origin_us": self.origin_us, "baud": self.baud})
     }
     pub fn from_json(v: &Value) -> RCfg {
         let step = |s: &str| -> Step {
@@ -136,6 +138,7 @@ impl RCfg {
             max_visits: v["max_visits"].as_u64().unwrap() as u32,
             join_budget: v["join_budget"].as_u64().unwrap() as u8,
             origin_us: v["origin_us"].as_i64().unwrap_or(0),
+            baud: v["baud"].as_u64().unwrap_or(1) as u8,
         }
     }
 }
@@ -244,7 +247,7 @@ pub struct RState {
 
 impl RState {
     pub fn new(cfg: &Arc<RCfg>, verbose: bool) -> RState {
-        let mut b = ParametersBuilder::new(cfg.ts, BAUDS[1].0);
+        let mut b = ParametersBuilder::new(cfg.ts, BAUDS[cfg.baud as usize].0);
         b.slot_bits(cfg.slot_bits).highest_station_address(cfg.hsa).gap_wait_rotations(cfg.gap_factor);
         if let Some(t) = cfg.ttr {
             b.token_rotation_bits(t);
@@ -253,7 +256,7 @@ impl RState {
         let slot_us = params.slot_time().total_micros() as i64;
         let mut station = FdlActiveStation::new(params);
         station.set_online();
-        let mut bus = BusSim::new(BAUDS[1].1, 2);
+        let mut bus = BusSim::new(BAUDS[cfg.baud as usize].1, 2);
         bus.origin_us = cfg.origin_us;
         bus.retire_port(1);
         let mut members = cfg.members0.clone();
